@@ -292,7 +292,12 @@ fn gen_op(rng: &mut Rng, pool: &mut Vec<Vec<char>>) -> Op {
         }
         25 => Op { expr: format!("(char->integer {})", chr(c)), name: "char->integer", expect: Ok(MV::Int(c as i64)), arg_class: String::new() },
         26 | 27 => {
-            let n: i64 = match rng.usize(8) {
+            let n: i64 = match rng.usize(12) {
+                // beyond 32 bits: the low 32 bits alone would be a valid scalar value
+                8 => (1i64 << 32) + *rng.pick(&[0i64, 0x41, 0x3bb, 0x10FFFF]),
+                9 => (1i64 << 40) + 0x61,
+                10 => i64::MAX,
+                11 => (*rng.pick(&[3i64, 17, 255]) << 32) + rng.range(0x20, 0x7e),
                 0 => 0xD7FF,
                 1 => 0xD800,
                 2 => 0xDFFF,
@@ -302,8 +307,8 @@ fn gen_op(rng: &mut Rng, pool: &mut Vec<Vec<char>>) -> Op {
                 6 => -1,
                 _ => rng.range(0, 0x11000),
             };
-            let e = if n < 0 { Err(()) } else { char::from_u32(n as u32).map(MV::Char).ok_or(()) };
-            let cls = if n < 0 { "negative" } else if (0xD800..=0xDFFF).contains(&n) { "surrogate" } else if n > 0x10FFFF { "above-0x10ffff" } else { "scalar" };
+            let e = if n < 0 || n > 0x10FFFF { Err(()) } else { char::from_u32(n as u32).map(MV::Char).ok_or(()) };
+            let cls = if n < 0 { "negative" } else if (0xD800..=0xDFFF).contains(&n) { "surrogate" } else if n > 0xFFFF_FFFF { "above-32-bits" } else if n > 0x10FFFF { "above-0x10ffff" } else { "scalar" };
             Op { expr: format!("(integer->char {})", n), name: "integer->char", expect: e, arg_class: cls.into() }
         }
         28 => {
